@@ -519,6 +519,9 @@ Section Handlers.
       if negb (bpp_ok (cf_bpp c)) then closeP s
       else if negb (bpp_ok bpp) then closeP s
       else if negb tc && negb (bpp =? 8) then closeP s
+      else if bpp =? 24 then
+        (* accepted (LIBVNCSERVER_ALLOW24BPP), but which encoders then serve the client is not mirrored *)
+        Em Opaque (Ret s)
       else if negb tc then
         (* rfbSetClientColourMapBGR233 *)
         wr_or_close (c04_sz_SetColourMapEntries + 256 * 3 * 2) s (Ret s)
